@@ -125,3 +125,28 @@ def fn_score_wrapper(ofr, score_fn, init_search, finish_search):
             "  pure (results.score, memory_dict, results_list)\n\n"
             "/-- `finish_search`: the dictionary handed to the user -/\n"
             "def finish_memory_dict (memory_on : Bool) (memory_dict : Dict Res) : Dict Res := if memory_on then memory_dict else []")
+
+
+def fn_finish_best(finish_search, conv_methods):
+    """`finish_search`: the three `best_*` assignments; `position2value` / `value2para` pass `None` through (`returnNoneIfArgNone`)"""
+    body = [_u(x) for x in finish_search.body]
+    want = ["self.best_score = self.p_bar.score_best", "self.best_value = self.conv.position2value(self.p_bar.pos_best)",
+            "self.best_para = self.conv.value2para(self.best_value)"]
+    idx = [body.index(w) if w in body else -1 for w in want]
+    if -1 in idx or idx != sorted(idx):
+        raise Untranslatable(f"finish_search: best_* assignments {idx}")
+    for name in ("position2value", "value2para"):
+        if name not in conv_methods or [_u(d) for d in conv_methods[name].decorator_list] != ["returnNoneIfArgNone"]:
+            raise Untranslatable(f"Converter.{name} is no longer under returnNoneIfArgNone")
+    w = conv_methods["returnNoneIfArgNone"].body[0]
+    if _u(w) != ("def wrapper(self, *args):\n    for arg in [*args]:\n        if arg is None:\n            return None\n"
+                 "    else:\n        return func_(self, *args)"):
+        raise Untranslatable("returnNoneIfArgNone changed: " + _u(w))
+    return ("/-- `finish_search`: what is reported as best (`position2value` / `value2para` pass `None` through) -/\n"
+            "def finish_best (sp : Space) (score_best : F) (pos_best : Option Pos) : Except Err (F × Option Value × Option Para) := do\n"
+            "  let best_score := score_best\n"
+            "  let best_value ← (match pos_best with\n"
+            "    | none => pure none\n"
+            "    | some p => do let v ← position2value sp.dims p; pure (some v))\n"
+            "  let best_para := best_value.map (value2para sp.names)\n"
+            "  pure (best_score, best_value, best_para)")
